@@ -1001,7 +1001,8 @@ class Interp:
                 tot = self.binop(ast.Add(), tot, x)
             return tot
         if name == "callable":
-            return isinstance(args[0], (Fn, Closure))
+            v = args[0]
+            return isinstance(v, (Fn, Closure, Cls)) or (callable(v) and not isinstance(v, (np.ndarray, sp.Basic, tuple, Obj)))
         if name == "dict":
             return dict(args[0]) if args else dict(kw)
         if name in ("all", "any"):
@@ -1035,12 +1036,14 @@ class Interp:
             return ("type", type(args[0]).__name__)
         if name == "isinstance":
             v, kinds = args
-            kinds = kinds if isinstance(kinds, (tuple, list)) and not (isinstance(kinds, tuple) and len(kinds) == 2 and kinds[0] in ("builtin", "type")) else (kinds,)
+            kinds = kinds if isinstance(kinds, (tuple, list)) and not (isinstance(kinds, tuple) and len(kinds) == 2 and kinds[0] in ("builtin", "type", "np", "dtype")) else (kinds,)
             if any(isinstance(k, Cls) for k in kinds):
                 if not all(isinstance(k, Cls) for k in kinds):
                     raise Undecided("isinstance with mixed kinds")
                 return isinstance(v, Obj) and v.cls in {k.name for k in kinds}
             names = {k[1] for k in kinds if isinstance(k, tuple)}
+            if names == {"ndarray"}:
+                return isinstance(v, np.ndarray)
             if names and names <= {"int", "int32", "int64", "integer", "Integral"}:
                 return isinstance(v, (int, np.integer, sp.Integer)) and not isinstance(v, bool)
             names = {"int" if n_ in ("int32", "int64", "integer") else "float" if n_ in ("float64", "float32", "floating") else n_ for n_ in names}
